@@ -1,0 +1,259 @@
+//go:build verif
+
+package main
+
+// Contracts for gcv (comment-only file; compiled only with -tags verif, and then to nothing).
+
+// Configuration of an OAuthProxy is written by NewOAuthProxy only (scan below): its fields are stable.
+//@ stable OAuthProxy.*
+//@ nonnil OAuthProxy.provider OAuthProxy.sessionStore OAuthProxy.Validator OAuthProxy.pageWriter OAuthProxy.appDirector
+//@ nonnil OAuthProxy.redirectValidator OAuthProxy.upstreamProxy OAuthProxy.CookieOptions OAuthProxy.serveMux OAuthProxy.redirectURL
+
+// The e-mail validator configured at construction (validator.go: newValidatorImpl$1, verified nomod below).
+//@ func funcval Validator
+//@ nomod
+
+// ---------------------------------------------------------------- C01 / C08: who gets through
+//@ func (*OAuthProxy).getAuthenticatedSession
+//@ prop C01 C08
+//@ ensures[only-if] ret1 == nil ==> ret(IsAllowedRequest)
+//@     || (ret0 != nil && called(Authorize) && ret0(Authorize) && arg(Authorize, 1) == ret0
+//@         && (ret0.Email == "" || (called(Validator) && ret(Validator) && arg(Validator, 0) == ret0.Email)))
+//@ ensures[session-from-scope] ret0 == nil || ret0 == old(ret(GetRequestScope).Session)
+//@ ensures[deny-nil] ret1 != nil ==> ret0 == nil
+//@ ensures[errors] ret1 == nil || ret1 == ErrNeedsLogin || ret1 == ErrAccessDenied
+//@ ensures[no-session-needs-login] ret1 == ErrNeedsLogin <==> !ret(IsAllowedRequest) && old(ret(GetRequestScope).Session) == nil
+//@ ensures[converse] !ret(IsAllowedRequest) && old(ret(GetRequestScope).Session) != nil && ret1 != nil ==>
+//@     (called(Validator) && !ret(Validator)) || !ret0(Authorize)
+//@ prop C08
+//@ ensures[denied-clears-cookie] ret1 == ErrAccessDenied ==> called(ClearSessionCookie)
+//@ at call ClearSessionCookie assert[clear-only-on-deny] (called(Validator) && !ret(Validator)) || !ret0(Authorize)
+
+//@ func (*OAuthProxy).Proxy
+//@ prop C01
+//@ at call ServeHTTP assert[upstream-only-if-authenticated] ret1(getAuthenticatedSession) == nil
+//@     && recv(ServeHTTP) == ret(Then) && arg(Then, 1) == p.upstreamProxy
+//@ ensures[served] ret1(getAuthenticatedSession) == nil ==> called(ServeHTTP)
+//@ ensures[denied-gets-prompt-or-error] ret1(getAuthenticatedSession) != nil ==>
+//@     called(errorJSON) || called(doOAuthStart) || called(SignInPage) || called(ErrorPage)
+
+//@ func (*OAuthProxy).AuthOnly
+//@ prop C01 C08
+//@ at call ServeHTTP assert[accepted-only-if-authenticated-and-authorized] ret1(getAuthenticatedSession) == nil
+//@     && ret(authOnlyAuthorize) && arg(authOnlyAuthorize, 1) == ret0(getAuthenticatedSession)
+//@ ensures[served] ret1(getAuthenticatedSession) == nil && ret(authOnlyAuthorize) ==> called(ServeHTTP)
+//@ ensures[denied] !called(ServeHTTP) ==> called(http.Error)
+
+//@ func (*OAuthProxy).UserInfo
+//@ prop C01
+//@ at call Encode assert[userinfo-only-if-session] ret1(getAuthenticatedSession) == nil && ret0(getAuthenticatedSession) != nil
+//@ ensures[unauthenticated-401] ret1(getAuthenticatedSession) != nil ==> called(http.Error) && arg(http.Error, 2) == 401 && !called(Encode)
+
+// ---------------------------------------------------------------- C03 / C05 / C08 / C13 / C14 / C06: the login callback
+//@ func (*OAuthProxy).OAuthCallback
+//@ prop C03
+//@ at call SaveSession assert[state-matches-validated-csrf-cookie-of-this-login] ret2(decodeState) == nil
+//@     && arg(decodeState, 0) == ret(Get#1) && arg(Get#1, 1) == "state"
+//@     && arg(GenerateCookieName, 0) == p.CookieOptions && arg(GenerateCookieName, 1) == ret0(decodeState)
+//@     && ret1(LoadCSRFCookie) == nil && arg(LoadCSRFCookie, 0) == req && arg(LoadCSRFCookie, 1) == ret(GenerateCookieName)
+//@     && arg(LoadCSRFCookie, 2) == p.CookieOptions
+//@     && ret(CheckOAuthState) && recv(CheckOAuthState) == ret0(LoadCSRFCookie) && arg(CheckOAuthState, 0) == ret0(decodeState)
+//@ ensures[csrf-failure-is-error-page-without-session] ret2(decodeState) != nil || (called(LoadCSRFCookie) && ret1(LoadCSRFCookie) != nil)
+//@     || (called(CheckOAuthState) && !ret(CheckOAuthState)) ==> called(ErrorPage) && !called(SaveSession)
+//@ ensures[converse-matching-login-succeeds] called(CheckOAuthState) && ret(CheckOAuthState) && ret(ValidateSession)
+//@     && ret(Validator) && ret0(Authorize) ==> called(SaveSession)
+//@ prop C05
+//@ at call SaveSession assert[verifier-and-nonce-from-this-logins-cookie] ret1(redeemCode) == nil
+//@     && arg(redeemCode, 2) == ret(GetCodeVerifier) && recv(GetCodeVerifier) == ret0(LoadCSRFCookie)
+//@     && called(SetSessionNonce) && recv(SetSessionNonce) == ret0(LoadCSRFCookie) && arg(SetSessionNonce, 0) == ret0(redeemCode)
+//@     && ret(ValidateSession) && arg(ValidateSession, 1) == ret0(redeemCode) && arg(SaveSession, 3) == ret0(redeemCode)
+//@ prop C14
+//@ at call SaveSession assert[no-session-on-provider-failure] ret1(redeemCode) == nil && ret(enrichSessionState) == nil
+//@     && arg(enrichSessionState, 2) == ret0(redeemCode) && ret(ValidateSession)
+//@ ensures[provider-failure-is-error-page] (called(redeemCode) && ret1(redeemCode) != nil) || (called(enrichSessionState) && ret(enrichSessionState) != nil)
+//@     || (called(ValidateSession) && !ret(ValidateSession)) ==> called(ErrorPage) && !called(SaveSession)
+//@ prop C08
+//@ at call SaveSession assert[login-only-for-authorised-identity] ret(Validator) && ret0(Authorize)
+//@     && arg(Authorize, 1) == ret0(redeemCode)
+//@ ensures[unauthorised-login-gets-no-session] (called(Validator) && !ret(Validator)) || (called(Authorize) && !ret0(Authorize))
+//@     ==> !called(SaveSession) && called(ErrorPage)
+//@ prop C13 C06
+//@ at call http.Redirect assert[redirect-only-after-persisted-to-validated-target] ret(SaveSession) == nil
+//@     && (arg(http.Redirect, 2) == "/" || (ret(IsValidRedirect) && arg(IsValidRedirect, 0) == arg(http.Redirect, 2)
+//@         && arg(http.Redirect, 2) == ret1(decodeState)))
+//@ ensures[save-failure-is-error-page] called(SaveSession) && ret(SaveSession) != nil ==> called(ErrorPage) && !called(http.Redirect)
+//@ prop C03 C14
+//@ ensures[every-request-answered] called(http.Redirect) || called(ErrorPage)
+
+//@ func (*OAuthProxy).redeemCode
+//@ prop C14 C05
+//@ ensures[session-only-from-successful-redeem] ret1 == nil ==> called(Redeem) && ret1(Redeem) == nil && ret0 == ret0(Redeem)
+//@     && arg(Redeem, 3) == codeVerifier && arg(Redeem, 2) == ret(Get) && ret(Get) != ""
+//@ ensures[error-means-no-session] ret1 != nil ==> ret0 == nil
+
+//@ func (*OAuthProxy).enrichSessionState
+//@ prop C14
+//@ ensures[email-lookup-error-propagates] called(GetEmailAddress) && ret1(GetEmailAddress) != nil
+//@     && !errors.Is(ret1(GetEmailAddress), providers.ErrNotImplemented) ==> ret0 == ret1(GetEmailAddress) && !called(EnrichSession)
+//@ ensures[enrich-error-propagates] called(EnrichSession) ==> ret0 == ret(EnrichSession)
+
+// ---------------------------------------------------------------- C05 / C06 / C03: starting a login
+//@ func (*OAuthProxy).doOAuthStart
+//@ prop C05
+//@ at call GetLoginURL assert[hashed-nonce-and-state-never-raw] arg(GetLoginURL, 2) == ret(HashOIDCNonce) && recv(HashOIDCNonce) == ret0(NewCSRF)
+//@     && arg(GetLoginURL, 1) == ret(encodeState) && arg(encodeState, 0) == ret(HashOAuthState) && recv(HashOAuthState) == ret0(NewCSRF)
+//@     && ret1(NewCSRF) == nil
+//@ at call NewCSRF assert[verifier-goes-into-the-cookie] arg(NewCSRF, 0) == p.CookieOptions
+//@     && (called(GenerateCodeVerifierString) ==> arg(NewCSRF, 1) == ret0(GenerateCodeVerifierString) && ret1(GenerateCodeVerifierString) == nil)
+//@     && (!called(GenerateCodeVerifierString) ==> arg(NewCSRF, 1) == "")
+//@ at call GenerateCodeVerifierString assert[rfc7636-length] arg(GenerateCodeVerifierString, 0) == 96
+//@ at call GenerateCodeChallenge assert[challenge-from-this-verifier] arg(GenerateCodeChallenge, 1) == ret0(GenerateCodeVerifierString)
+//@ at call Add#0 assert[challenge-param] arg(Add#0, 1) == "code_challenge" && arg(Add#0, 2) == ret0(GenerateCodeChallenge) && ret1(GenerateCodeChallenge) == nil
+//@ at call Add#1 assert[method-param] arg(Add#1, 1) == "code_challenge_method"
+//@ prop C03 C06 C13
+//@ at call http.Redirect assert[login-redirect-only-after-csrf-cookie-set-to-provider-url] ret1(SetCookie) == nil && recv(SetCookie) == ret0(NewCSRF)
+//@     && arg(http.Redirect, 2) == ret(GetLoginURL) && ret1(GetRedirect) == nil && arg(encodeState, 1) == ret0(GetRedirect)
+//@ ensures[every-request-answered] called(http.Redirect) || called(ErrorPage)
+
+// ---------------------------------------------------------------- C11 / C13 / C06: sign-out, sign-in
+//@ func (*OAuthProxy).SignOut
+//@ prop C11 C13 C06
+//@ at call http.Redirect assert[success-redirect-only-after-clear-succeeded] ret(ClearSessionCookie) == nil && ret1(GetRedirect) == nil
+//@     && arg(http.Redirect, 2) == ret0(GetRedirect)
+//@ ensures[clear-failure-is-error-page] called(ClearSessionCookie) && ret(ClearSessionCookie) != nil ==> called(ErrorPage) && !called(http.Redirect)
+//@ ensures[always-tries-to-clear] ret1(GetRedirect) == nil ==> called(ClearSessionCookie)
+
+//@ func (*OAuthProxy).SignIn
+//@ prop C13 C06 C01
+//@ at call http.Redirect assert[redirect-only-after-persisted] ret(SaveSession) == nil && ret1(ManualSignIn) && ret1(GetRedirect) == nil
+//@     && arg(http.Redirect, 2) == ret0(GetRedirect)
+//@ at call SaveSession assert[session-only-for-validated-password] ret1(ManualSignIn) && arg(SaveSession, 3).User == ret0(ManualSignIn)
+//@ ensures[save-failure-is-error-page] called(SaveSession) && ret(SaveSession) != nil ==> called(ErrorPage) && !called(http.Redirect)
+
+//@ func (*OAuthProxy).ManualSignIn
+//@ prop C01
+//@ ensures[ok-only-if-validated] ret1 ==> called(Validate) && ret(Validate) && arg(Validate, 0) == ret0 && ret0 != ""
+
+//@ func (*OAuthProxy).SignInPage
+//@ prop C13 C11
+//@ at call WriteHeader assert[page-only-after-cookie-cleared] ret(ClearSessionCookie) == nil
+//@ ensures[clear-failure-is-error-page] ret(ClearSessionCookie) != nil ==> called(ErrorPage) && !called(WriteSignInPage)
+
+//@ func (*OAuthProxy).ErrorPage
+//@ prop C06
+//@ at call WriteErrorPage assert[redirect-target-is-root-or-directors] arg(WriteErrorPage, 1).RedirectURL == "/"
+//@     || arg(WriteErrorPage, 1).RedirectURL == ret0(GetRedirect)
+
+//@ func (*OAuthProxy).ClearSessionCookie
+//@ prop C11 C13
+//@ ensures[store-clear-passthrough] ret0 == ret(Clear) && arg(Clear, 0) == rw && arg(Clear, 1) == req && recv(Clear) == p.sessionStore
+
+//@ func (*OAuthProxy).SaveSession
+//@ prop C13
+//@ ensures[store-save-passthrough] ret0 == ret(Save) && arg(Save, 2) == s && recv(Save) == p.sessionStore
+
+// ---------------------------------------------------------------- C08: e-mail and group rules
+//@ define lastAtom(e string) string = strings.Split(e, "@")[len(strings.Split(e, "@")) - 1]
+//@ define domainRule(e string, d string) bool = HasSuffix(e, "@" + d) || (HasPrefix(d, ".") && HasSuffix(lastAtom(e), d))
+//@     || (HasPrefix(d, "*.") && HasSuffix(lastAtom(e), d[1:]))
+
+//@ prop C08
+//@ lemma[NoLookalike] forall e string, d string :: domainRule(e, d) && !HasPrefix(d, ".") && !HasPrefix(d, "*.") ==> HasSuffix(e, "@" + d)
+//@ lemma[DotNeedsDot] forall e string, d string :: domainRule(e, d) && HasPrefix(d, ".") && !HasSuffix(e, "@" + d) ==> HasSuffix(lastAtom(e), d)
+
+//@ func isEmailValidWithDomains
+//@ safety
+//@ nomod
+//@ prop C08
+//@ loop 0 invariant[no-earlier-domain-matched] rangeindex >= -1 && forall j int :: 0 <= j && j <= rangeindex ==> !domainRule(email, allowedDomains[j])
+//@ ensures[only-if-some-domain-rule-matches] result ==> exists k int :: 0 <= k && k < len(allowedDomains) && domainRule(email, allowedDomains[k])
+//@ ensures[if-some-domain-rule-matches] !result ==> forall j int :: 0 <= j && j < len(allowedDomains) ==> !domainRule(email, allowedDomains[j])
+
+//@ func newValidatorImpl$1
+//@ nomod
+//@ prop C08
+//@ ensures[empty-email-never-valid] email == "" ==> !valid
+//@ ensures[rule] email != "" ==> (valid <==> allowAll || ret(isEmailValidWithDomains) || (called(IsValid) && ret(IsValid)))
+//@ ensures[checks-the-lowercased-email] email != "" ==> arg(isEmailValidWithDomains, 0) == strings.ToLower(email)
+//@     && arg(isEmailValidWithDomains, 1) == domains && (called(IsValid) ==> arg(IsValid, 1) == strings.ToLower(email))
+
+//@ func (*UserMap).IsValid
+//@ nomod
+//@ prop C08 C20
+
+// auth-only query constraints: each constraint function is a deterministic read-only predicate of (request, session)
+//@ abstract holds(ref, ref, ref) bool
+//@ func funcval constraint
+//@ nomod
+//@ ensures result == holds(self, a0, a1)
+
+//@ func authOnlyAuthorize
+//@ safety
+//@ prop C08
+//@ loop 0 invariant[all-earlier-constraints-held] rangeindex >= -1 && rangeindex < 3 && forall j int :: 0 <= j && j <= rangeindex ==> holds(constraints[j], req, s)
+//@ ensures[bypassed-request-has-no-session-to-check] s == nil ==> result
+//@ ensures[all-three-constraints-must-hold] s != nil && result ==> len(constraints) == 3
+//@     && constraints[0] == checkAllowedGroups && constraints[1] == checkAllowedEmailDomains && constraints[2] == checkAllowedEmails
+//@     && holds(constraints[0], req, s) && holds(constraints[1], req, s) && holds(constraints[2], req, s)
+
+//@ func checkAllowedGroups
+//@ safety
+//@ prop C08
+//@ loop 0 invariant[no-earlier-group-allowed] rangeindex >= -1 && forall j int :: 0 <= j && j <= rangeindex ==> !inmap(allowedGroups, s.Groups[j])
+//@ ensures[unconstrained] len(ret(extractAllowedEntities)) == 0 ==> result
+//@ ensures[needs-a-common-group] len(ret(extractAllowedEntities)) != 0 ==>
+//@     (result <==> exists k int :: 0 <= k && k < len(s.Groups) && inmap(ret(extractAllowedEntities), s.Groups[k]))
+//@ ensures[reads-allowed_groups] arg(extractAllowedEntities, 1) == "allowed_groups" && arg(extractAllowedEntities, 0) == req
+
+//@ func checkAllowedEmails
+//@ safety
+//@ prop C08
+//@ ensures[unconstrained] len(ret(extractAllowedEntities)) == 0 ==> result
+//@ ensures[needs-the-email-listed] len(ret(extractAllowedEntities)) != 0 && result ==> inmap(ret(extractAllowedEntities), s.Email)
+//@ ensures[reads-allowed_emails] arg(extractAllowedEntities, 1) == "allowed_emails" && arg(extractAllowedEntities, 0) == req
+
+//@ func checkAllowedEmailDomains
+//@ safety
+//@ prop C08
+//@ ensures[unconstrained] len(ret(extractAllowedEntities)) == 0 ==> result
+//@ ensures[malformed-email-refused] len(ret(extractAllowedEntities)) != 0 && len(strings.Split(s.Email, "@")) != 2 ==> !result
+//@ ensures[domain-must-be-allowed] len(ret(extractAllowedEntities)) != 0 && result ==> called(IsEndpointAllowed) && ret(IsEndpointAllowed)
+//@ at call IsEndpointAllowed assert[checks-the-emails-domain] arg(IsEndpointAllowed, 0).Host == strings.Split(s.Email, "@")[1]
+//@ ensures[reads-allowed_email_domains] arg(extractAllowedEntities, 1) == "allowed_email_domains" && arg(extractAllowedEntities, 0) == req
+
+// ---------------------------------------------------------------- C15: bypass rules
+// pathPart(u): the path component of a request URI (everything before the first '?' or '#').
+//@ define pathPart(u string) string = ite(strings.IndexAny(u, "?#") >= 0, u[0:strings.IndexAny(u, "?#")], u)
+
+//@ func (*OAuthProxy).IsAllowedRequest
+//@ nomod
+//@ prop C15 C01
+//@ ensures[exactly-the-three-bypasses] result <==> (p.skipAuthPreflight && req.Method == "OPTIONS")
+//@     || (called(isAllowedRoute) && ret(isAllowedRoute)) || (called(isTrustedIP) && ret(isTrustedIP))
+//@ ensures[same-request] (called(isAllowedRoute) ==> arg(isAllowedRoute, 1) == req) && (called(isTrustedIP) ==> arg(isTrustedIP, 1) == req)
+
+//@ func isAllowedMethod
+//@ nomod
+//@ prop C15
+//@ ensures[method-equals-or-unnamed] result <==> route.method == "" || req.Method == route.method
+
+//@ func isAllowedPath
+//@ nomod
+//@ prop C15
+//@ ensures[regex-on-path-only-with-negation] result <==> (reMatch(route.pathRegex, pathPart(ret(GetRequestURI))) != route.negate)
+//@ ensures[same-request] arg(GetRequestURI, 0) == req
+
+//@ func (*OAuthProxy).isAllowedRoute
+//@ nomod
+//@ prop C15
+//@ ensures[only-if-a-rule-matches-method-and-path] result ==> called(isAllowedMethod) && ret(isAllowedMethod) && called(isAllowedPath) && ret(isAllowedPath)
+//@     && arg(isAllowedMethod, 1) == arg(isAllowedPath, 1) && arg(isAllowedMethod, 0) == req && arg(isAllowedPath, 0) == req
+
+//@ func (*OAuthProxy).isTrustedIP
+//@ nomod
+//@ prop C15 C16
+//@ ensures[only-members-of-the-trusted-set] result ==> called(Has) && ret(Has) && arg(Has, 1) == ret0(GetClientIP) && ret1(GetClientIP) == nil
+//@     && arg(Has, 0) == p.trustedIPs
+//@ ensures[parser-error-not-trusted] called(GetClientIP) && ret1(GetClientIP) != nil ==> !result
+//@ ensures[uses-configured-parser] called(GetClientIP) ==> arg(GetClientIP, 0) == p.realClientIPParser && arg(GetClientIP, 1) == req
+//@ ensures[members-are-trusted] called(Has) ==> result == ret(Has)
